@@ -1102,6 +1102,53 @@ def corpus_refusals(R, r):
             R.fail("C10:set-wrong", f"scalar-slot corpus: one-element values / neighbours read a={list(a.to_nparray())} b={list(b.to_nparray())} p.x={p.x} p.y={p.y} ({ok})", ctx)
 
 
+def corpus_refused_handle(R, r):
+    """C11, oracle only: a whole-array update that is REFUSED (the items need more room than was fixed at creation) leaves the HANDLE it
+    was called on as it was - same values through that very handle, and a fitting item assignment through it afterwards lands in the
+    array, not in the neighbour"""
+    xo = common.import_xobjects()
+    ctx = {"component": "heap", "corpus": "refused-handle"}
+    cases = [(xo.String[:], ["aa", "bb", "cc"], ["a" * 30, "b", "c"], 1, "q", lambda a: [str(a[i]) for i in range(3)]),
+             (xo.String[:, 2], [["aa", "bb"], ["cc", "dd"]], [["a", "b"], ["c", "d" * 40]], (1, 0), "zz", lambda a: [str(a[i, j]) for i in range(2) for j in range(2)]),
+             (xo.Float64[:][:], [[1.0], [2.0, 3.0], []], [[1.0, 2.0, 3.0, 4.0, 5.0], [2.0], [3.0]], None, None, lambda a: [[float(q) for q in a[i].to_nparray()] for i in range(3)])]
+    for kind in ("numpy", "bytearray"):
+        for A, v0, big, idx, small, read in cases:
+            buf = alloc_buffer(xo, kind)
+            try:
+                arr = A(v0, _buffer=buf)
+                guard = xo.Int64[4]([7, 16, 33, 44], _buffer=buf)
+                was = read(arr)
+            except Exception as ex:
+                R.fail("C11:corpus-raises", f"{A.__name__}: {type(ex).__name__}: {str(ex)[:120]}", ctx)
+                continue
+            img = bytes(buf.to_bytearray(0, buf.capacity))
+            try:
+                arr._update(big)
+                R.fail("C11:misfit-accepted", f"{A.__name__}({v0})._update({big}) (items larger than the room fixed at creation) was accepted", ctx)
+                continue
+            except Exception:
+                R.tags["corpus.refused-handle.refused"] += 1
+            if bytes(buf.to_bytearray(0, buf.capacity)) != img:
+                R.fail("C11:error-with-side-effect", f"{A.__name__}: the refused update changed the buffer", ctx)
+            try:
+                now = read(arr)
+            except Exception as ex:
+                now = f"EXC {type(ex).__name__}: {str(ex)[:80]}"
+            if now != was:
+                R.fail("C11:refused-update-changed-the-handle", f"{A.__name__}: x = {v0}; x._update({big}) was refused, but x now reads {str(now)[:160]}", ctx)
+                continue
+            if idx is not None:
+                try:
+                    arr[idx] = small
+                    after_guard = [int(q) for q in guard.to_nparray()]
+                    got = str(arr[idx])
+                    if after_guard != [7, 16, 33, 44] or got != small:
+                        R.fail("C11:refused-update-changed-the-handle", f"{A.__name__}: after a refused update, x[{idx}] = {small!r} through the same handle reads "
+                               f"{got!r}; the neighbouring Int64[4] reads {after_guard}", ctx)
+                except Exception as ex:
+                    R.fail("C10:fitting-assignment-refused", f"{A.__name__}: after a refused update, x[{idx}] = {small!r}: {type(ex).__name__}: {str(ex)[:100]}", ctx)
+
+
 def corpus_array_values(R, r):
     """existing ARRAYS as values (oracle only): (a) a source with spare room between its items (an item rewritten by a shorter text)
     is copied item-wise into the room planned for it - nothing outside the reserved extents changes, the size reported is the extent;
@@ -1212,6 +1259,7 @@ def run_all(tier, seed, n=None):
     corpus_copy_twice(R, r)
     corpus_string_instances(R, r)
     corpus_refusals(R, r)
+    corpus_refused_handle(R, r)
     corpus_array_values(R, r)
     corpus_two_accessors(R, r)
     for _ in range(n):
